@@ -28,6 +28,9 @@ type personSpec struct {
 	AltName           bool `json:"alt_name,omitempty"`
 	Nick              bool `json:"nick,omitempty"`
 	NameOnlyGiven     bool `json:"only_given,omitempty"`
+	// Attr: a fact that is not an event, with a date and a place of its own, below this tag
+	// ("" none; OCCU, EDUC, RELI, _MILT, or NOTE/x for a place two levels down)
+	Attr string `json:"attr,omitempty"`
 }
 
 type famSpec struct {
@@ -114,6 +117,13 @@ func (c privCase) graph(variant int) *gen.GraphBP {
 			p.Events = append(p.Events, gen.EventBP{Tag: "RESI", Place: gen.Str(pl)})
 		case "living-burial-only":
 			p.Events = append(p.Events, gen.EventBP{Tag: "BIRT", Date: gen.Str(year(2003)), HasDate: true}, gen.EventBP{Tag: "BURI", Date: gen.Str(year(2020)), Place: gen.Str(pl), HasDate: true})
+		}
+		if ps.Attr != "" {
+			kids := []*gen.NodeBP{{Tag: "DATE", Value: gen.Str(year(2015))}, {Tag: "PLAC", Value: gen.Str(fmt.Sprintf("Ap%dq%s, Apland%dq%s", i, tag, i, tag))}}
+			if strings.HasSuffix(ps.Attr, "/x") {
+				kids = []*gen.NodeBP{{Tag: "_SUB", Value: "x", Kids: kids}}
+			}
+			p.More = append(p.More, &gen.NodeBP{Tag: strings.TrimSuffix(ps.Attr, "/x"), Value: gen.Str(fmt.Sprintf("Job%dq%s", i, tag)), Kids: kids})
 		}
 		p.Notes = []gen.Str{gen.Str(fmt.Sprintf("Nt%dq%s", i, tag))}
 		g.People = append(g.People, p)
@@ -357,6 +367,7 @@ func genCase(rt *rapid.T) privCase {
 		if i > 0 && rapid.IntRange(0, 2).Draw(rt, "sharesPlace") == 0 {
 			ps.SharesPlaceWith = rapid.IntRange(0, i-1).Draw(rt, "placeOf")
 		}
+		ps.Attr = rapid.SampledFrom([]string{"", "", "", "OCCU", "EDUC", "RELI", "_MILT", "EVEN/x", "OCCU/x"}).Draw(rt, "attr")
 		ps.AltName = rapid.IntRange(0, 2).Draw(rt, "alt") == 0
 		ps.Nick = rapid.IntRange(0, 3).Draw(rt, "nick") == 0
 		ps.NameOnlyGiven = rapid.IntRange(0, 6).Draw(rt, "onlyGiven") == 0
@@ -384,7 +395,7 @@ func genCase(rt *rapid.T) privCase {
 
 func TestCheckPrivacy(t *testing.T) {
 	s := harness.NewSub("living-people-marked-documents",
-		"family graphs (1..6 people, 0..3 families) in which every name part of every person is a unique marker (given, surname, an alternative NAME record, a further NAME with NICK) and places/notes are markers too; status by construction and far from the 100-year boundary: dead = DEAT with date, DEAT without date, or born about 1810 without DEAT; living = born 2001+ without DEAT, no dates at all, or born 2003 with BURI but no DEAT; living people in every role (spouse, parent, child, unconnected), optionally sharing a surname or a place with a dead person; visibility hide/placeholder x page-group masks x jobs 1/4; in four of seven cases the same document object was published once before (show, placeholder or hide, all page groups) and the site under test is the later one. Oracle: IsLiving() agrees with the construction; no file name and no file content (case-insensitive) contains a name marker of a living person; every non-living person has a page, is listed, and the name shows; pages stay well formed; in hide mode the published files are byte-identical when only the living people's names, dates, places and notes are changed; non-trivial = a living and a dead person connected by a family")
+		"family graphs (1..6 people, 0..3 families) in which every name part of every person is a unique marker (given, surname, an alternative NAME record, a further NAME with NICK) and places/notes are markers too, incl. the place and date of a fact that is not an event (OCCU, EDUC, RELI, a custom tag, one or two levels down); status by construction and far from the 100-year boundary: dead = DEAT with date, DEAT without date, or born about 1810 without DEAT; living = born 2001+ without DEAT, no dates at all, or born 2003 with BURI but no DEAT; living people in every role (spouse, parent, child, unconnected), optionally sharing a surname or a place with a dead person; visibility hide/placeholder x page-group masks x jobs 1/4; in four of seven cases the same document object was published once before (show, placeholder or hide, all page groups) and the site under test is the later one. Oracle: IsLiving() agrees with the construction; no file name and no file content (case-insensitive) contains a name marker of a living person; every non-living person has a page, is listed, and the name shows; pages stay well formed; in hide mode the published files are byte-identical when only the living people's names, dates, places and notes are changed; non-trivial = a living and a dead person connected by a family")
 	s.Rapid(t, harness.Share(harness.Pick(30000, 600000)), 170, func(rt *rapid.T) {
 		c := genCase(rt)
 		s.Crumb(c)
